@@ -389,6 +389,16 @@ def main(tier):
                 viol(f"R:worker-pickler:{at_submit}->{used}",
                      f"task submitted under {at_submit!r}, parent switched to {later!r} "
                      f"{gap} s later: the worker used {used!r}", (at_submit, later, gap))
+        for worker_default, at_submit, kind in r["result"].get("results", []):
+            n += 1
+            exp = "value" if at_submit == "cloudpickle" else "not-value"
+            ok = (kind == "value") if exp == "value" else (kind not in ("value", "wrong-value"))
+            if not ok:
+                viol(f"R:result-pickler:{at_submit}:worker-default={worker_default}:{kind}",
+                     f"a lambda returned by a task submitted under {at_submit!r} (worker's own "
+                     f"default pickler: {worker_default or 'cloudpickle'}) came back as {kind}: the "
+                     f"result did not travel with the pickler of the submission",
+                     (worker_default, at_submit))
 
     rep.coverage = dict(
         evaluations=n, distinct_nontrivial=states + len(callables()) * 2 + 9, samples=samples or [{}],
